@@ -107,7 +107,54 @@ func judgeC08Batch(sc *BatchSc, x *batchExec, br batchRun, fail string) Verdict 
 	return ok(n > sc.C && sc.C >= 2, cls...)
 }
 
+func c08Normalise(sc *BatchSc) {
+	sc.Budget, sc.WaitMs, sc.PrepErr, sc.HasFb = 1, 0, 0, false
+	if sc.stop() {
+		items := append([]ItemScript(nil), sc.Items...)
+		for i := range items {
+			it := items[i]
+			it.Exec = []Outcome{{Pay: i % numPayKinds}}
+			items[i] = it
+		}
+		sc.Items = items
+	}
+}
+
 func checkC08Batch(t *testing.T, sc BatchSc) Verdict {
+	if sc.Second != nil {
+		// the same node object run again with a different concurrency: the limit in force is the
+		// one configured now, not the one of the previous run
+		sec := *sc.Second
+		sec.Barrier = 0
+		c08Normalise(&sec)
+		sc.Second = &sec
+		c08Normalise(&sc)
+		sc.Barrier = 0
+		var x *batchExec
+		var br batchRun
+		eff := sec
+		eff.PrepForm, eff.ExecAny, eff.ErrBoth, eff.NoPost, eff.Gated, eff.Second = sc.PrepForm, sc.ExecAny, sc.ErrBoth, sc.NoPost, sc.Gated, nil
+		fail := Bubble(t, func() {
+			x = newBatchExec(&sc)
+			if sc.Gated {
+				x.qp = c08QP
+			}
+			first := x.run()
+			if first.Panic != "" || x.qpFail != "" {
+				br = first
+				return
+			}
+			x.reconfigure(&eff)
+			br = x.run()
+		})
+		v := judgeC08Batch(&eff, x, br, fail)
+		if v.Violation != "" {
+			v.Violation = "second run of the same batch node after changing the concurrency: " + v.Violation
+			v.Fingerprint += ":rerun"
+		}
+		v.Classes = append(v.Classes, "reconfigured-rerun")
+		return v
+	}
 	sc.Budget, sc.WaitMs, sc.PrepErr, sc.HasFb = 1, 0, 0, false
 	if sc.stop() {
 		// in stop mode the in-flight equation only holds as long as nothing fails: make every item succeed
@@ -129,9 +176,13 @@ func checkC08Batch(t *testing.T, sc BatchSc) Verdict {
 
 func genC08Batch(rt *rapid.T) BatchSc {
 	c := rapid.IntRange(0, 16).Draw(rt, "c")
-	g := batchGen{MinN: 1, MaxN: 4*c + 8, MaxC: 0, MaxBudget: 1, PFail: 200, Gated: 2, MaxSched: 80, PrepForms: []int{PFResults, PFAnySlice, PFIntSlice}, Modes: []int{0, 1, 2}}
+	g := batchGen{MinN: 1, MaxN: 4*c + 8, MaxC: 0, MaxBudget: 1, PFail: 200, Gated: 2, MaxSched: 80, PrepForms: []int{PFResults, PFAnySlice, PFIntSlice}, Modes: []int{0, 1, 2}, Rerun: true}
 	b := g.gen(rt)
 	b.C = c
+	if b.Second != nil {
+		b.Second.C = rapid.IntRange(0, 16).Draw(rt, "c2")
+		b.Second.Gated = b.Gated
+	}
 	if !b.Gated && c >= 1 && rapid.Bool().Draw(rt, "barrier") {
 		// usability: min(c, n) items that all wait for each other must run simultaneously
 		b.Barrier = min(c, b.n())
